@@ -255,8 +255,8 @@ type brGen struct {
 	r     *brRun
 	tok   int
 	ids   []string
-	outs  []string // H lines
-	order []string // tokens in creation order
+	outs  []string    // H lines
+	order []string    // tokens in creation order
 	pend  []brPending // outcomes, not yet released
 }
 
